@@ -72,6 +72,7 @@ type Frame struct {
 	free     []Val
 	cellsBy  map[string][]*Cell
 	callIns  ssa.Instruction // call site in the caller (inlined frames)
+	sole     bool // inlined body of a helper introduced by an edit (soleCallee)
 	loopOld  map[int]*Snapshot
 	loopExit map[int]*Snapshot // by loop ordinal: state when the (cut) loop was left on this path
 	lockSnap *Snapshot         // state right after the most recent Lock in this frame
